@@ -1,13 +1,20 @@
--- executable model of option value parsing (mi_option_init, options.c l.608-657)
+-- executable model of option value parsing (mi_option_init + mi_option_is_word, src/options.c)
+-- tied to the real static function by the differential harness harness/c20.c (every check run)
 namespace OptM
 
 def toUpper (c : Char) : Char := if 'a' ≤ c ∧ c ≤ 'z' then Char.ofNat (c.toNat - 32) else c
 
-/-- C strstr(hay, needle) ≠ NULL -/
-def isInfix (needle hay : List Char) : Bool :=
-  match hay with
-  | [] => needle.isEmpty
-  | _ :: t => needle.isPrefixOf hay || isInfix needle t
+/-- split a `;`-separated word list (the loop of `mi_option_is_word`) -/
+def splitWords : List Char → List (List Char)
+  | [] => []
+  | cs => go cs []
+where
+  go : List Char → List Char → List (List Char)
+    | [], acc => [acc.reverse]
+    | c :: r, acc => if c = ';' then acc.reverse :: (match r with | [] => [] | _ => go r []) else go r (c :: acc)
+
+/-- `mi_option_is_word(words, s)`: `s` is non-empty and equals one of the `;`-separated words -/
+def isWord (words s : List Char) : Bool := !s.isEmpty && (splitWords words).contains s
 
 def isSpace (c : Char) : Bool := c = ' ' ∨ c = '\t' ∨ c = '\n' ∨ c = '\x0b' ∨ c = '\x0c' ∨ c = '\r'
 
@@ -15,47 +22,65 @@ def LONG_MAX : Int := 9223372036854775807
 def LONG_MIN : Int := -9223372036854775808
 def MAX_ALLOC : Nat := 65536 * 4294967294
 
-/-- strtol(s, &end, 10): returns (value, rest); no digits ⇒ (0, s) -/
-def strtol (s : List Char) : Int × List Char :=
-  let t := s.dropWhile isSpace
-  let (neg, t1) := match t with
-    | '-' :: r => (true, r)
-    | '+' :: r => (false, r)
-    | _ => (false, t)
+def digitsVal (ds : List Char) : Nat := ds.foldl (fun a c => a * 10 + (c.toNat - 48)) 0
+def clampLong (v : Int) : Int := if v > LONG_MAX then LONG_MAX else if v < LONG_MIN then LONG_MIN else v
+
+/-- optional sign: (negative?, rest) -/
+def stripSign : List Char → Bool × List Char
+  | '-' :: r => (true, r)
+  | '+' :: r => (false, r)
+  | r => (false, r)
+
+/-- strtol(s, &end, 10): returns (value, rest, consumed-a-digit); no digits ⇒ (0, s, false) -/
+def strtol (s : List Char) : Int × List Char × Bool :=
+  let t1 := (stripSign (s.dropWhile isSpace)).2
   let ds := t1.takeWhile Char.isDigit
-  if ds.isEmpty then (0, s) else
-    let mag : Nat := ds.foldl (fun a c => a * 10 + (c.toNat - 48)) 0
-    let v : Int := if neg then -(mag : Int) else (mag : Int)
-    let v := if v > LONG_MAX then LONG_MAX else if v < LONG_MIN then LONG_MIN else v
-    (v, t1.dropWhile Char.isDigit)
+  if ds.isEmpty then (0, s, false) else
+    let v : Int := if (stripSign (s.dropWhile isSpace)).1 then -(digitsVal ds : Int) else (digitsVal ds : Int)
+    (clampLong v, t1.dropWhile Char.isDigit, true)
 
 inductive Init where | defaulted | initialized deriving Repr, DecidableEq
 
-/-- result: (init state, value); `dflt` is the value before parsing -/
-def parse (sizeInKiB : Bool) (dflt : Int) (raw : String) : Init × Int :=
-  let buf := (raw.toList.take 64).map toUpper
-  if buf.isEmpty || isInfix buf "1;TRUE;YES;ON".toList then (.initialized, 1)
-  else if isInfix buf "0;FALSE;NO;OFF".toList then (.initialized, 0)
+/-- the unit letter of a size value: (multiplier in KiB if present, rest) -/
+def stripUnit : List Char → Option Nat × List Char
+  | 'K' :: r => (some 1, r)
+  | 'M' :: r => (some 1024, r)
+  | 'G' :: r => (some (1024 * 1024), r)
+  | 'T' :: r => (some (1024 * 1024 * 1024), r)
+  | r => (none, r)
+
+/-- the optional `iB` / `B` after the unit letter -/
+def stripBytes : List Char → List Char
+  | 'I' :: 'B' :: r => r
+  | 'B' :: r => r
+  | r => r
+
+/-- saturation of a size in KiB: `overflow || size > MI_MAX_ALLOC_SIZE` ⇒ `MI_MAX_ALLOC_SIZE / KiB`, then clamp to `long` -/
+def satKiB (overflow : Bool) (size : Nat) : Int :=
+  let size := if overflow || size > MAX_ALLOC then MAX_ALLOC / 1024 else size
+  if (size : Int) > LONG_MAX then LONG_MAX else (size : Int)
+
+/-- the `size in KiB` post-processing of the parsed number: (value, rest) ↦ (value in KiB, rest) -/
+def sizeKiB (value : Int) (rest : List Char) : Int × List Char :=
+  let size : Nat := if value < 0 then 0 else value.toNat
+  let v := match (stripUnit rest).1 with
+    | some k => satKiB (decide (size * k ≥ 2^64)) (size * k % 2^64)     -- mi_mul_overflow(size, k, &size)
+    | none => satKiB false ((size + 1023) / 1024)
+  (v, stripBytes (stripUnit rest).2)
+
+/-- the upper-cased, truncated buffer `mi_option_init` parses (`_mi_getenv` copies at most 64 bytes) -/
+def buffer (raw : String) : List Char := (raw.toList.take 64).map toUpper
+
+/-- parsing of the buffer: (init state, value); `dflt` is the value before parsing -/
+def parseBuf (sizeInKiB : Bool) (dflt : Int) (buf : List Char) : Init × Int :=
+  if buf.isEmpty || isWord "1;TRUE;YES;ON".toList buf then (.initialized, 1)
+  else if isWord "0;FALSE;NO;OFF".toList buf then (.initialized, 0)
   else
-    let (value, rest) := strtol buf
-    let (value, rest) :=
-      if sizeInKiB then
-        let size : Nat := if value < 0 then 0 else value.toNat
-        let (size, overflow, rest) := match rest with
-          | 'K' :: r => (size, false, r)
-          | 'M' :: r => (size * 1024, decide (size * 1024 ≥ 2^64), r)
-          | 'G' :: r => (size * 1024 * 1024, decide (size * 1024 * 1024 ≥ 2^64), r)
-          | 'T' :: r => (size * 1024 * 1024 * 1024, decide (size * 1024 * 1024 * 1024 ≥ 2^64), r)
-          | r => ((size + 1023) / 1024, false, r)
-        let rest := match rest with
-          | 'I' :: 'B' :: r => r
-          | 'B' :: r => r
-          | r => r
-        let size := if overflow || size > MAX_ALLOC then MAX_ALLOC / 1024 else size
-        let v : Int := if (size : Int) > LONG_MAX then LONG_MAX else (size : Int)
-        (v, rest)
-      else (value, rest)
-    if rest.isEmpty then (.initialized, value) else (.defaulted, dflt)
+    let (value, rest, hasDigits) := strtol buf
+    let (value, rest) := if sizeInKiB then sizeKiB value rest else (value, rest)
+    if rest.isEmpty && hasDigits then (.initialized, value) else (.defaulted, dflt)
+
+def parse (sizeInKiB : Bool) (dflt : Int) (raw : String) : Init × Int :=
+  parseBuf sizeInKiB dflt (buffer raw)
 
 end OptM
-
